@@ -260,6 +260,8 @@ class Perp(CompoundTensorOperator):
             raise ValueError(f"Perp requires arguments of rank 1, got {ufl_err_str(A)}")
         if not sh[0] == 2:
             raise ValueError(f"Perp can only work on 2D vectors, got {ufl_err_str(A)}")
+        if A.ufl_free_indices:
+            raise ValueError("Not expecting free indices in Perp.")
 
         # Simplification
         if isinstance(A, Zero):
